@@ -240,7 +240,12 @@ def rand_design(rng, profile='small', nops=None, nin=None, ops=None, nregs=None,
 
     for r in d.regs:
         src = pick()
-        r.next <<= src
+        if raw and len(src) > len(r) and rng.random() < 0.5:
+            # a raw register net whose next-input is wider than the register (legal: truncates)
+            working_block().add_net(LogicNet('r', None, (src,), (r,)))
+            d.ops_used.append('rawreg')
+        else:
+            r.next <<= src
     for m in d.mems:
         for _p in range(rng.choice([1, 1, 2, 3])):
             wa, wd, we = pick(), pick(), pick()
